@@ -731,3 +731,7 @@ impl ProbeSequence {
         self.bucket
     }
 }
+
+#[cfg(kani)]
+#[path = "/verif/units/kani/bitbox_mod.rs"]
+mod verif_kani;
